@@ -163,11 +163,18 @@ def guard_table(c, gen, ln, atoms, consistent=lambda a: True):
     conditions, strengthened by every assert that is executed before it on the same path (frames a prefix of `gen`).
     Returns {assignment tuple: True/False/None}; None = decided by something outside the atoms."""
     frames = [(c.norm(fr[1]), fr[2]) for fr in gen if fr[0] == 'pyif']
-    pre = []
+    pre = []                                            # (extra frames of the assert beyond the common prefix, test)
+    my_loops = [fr[1] for fr in gen if fr[0] == 'for']
     for t, g_, l_ in c.t.asserts:
         af = [(c.norm(fr[1]), fr[2]) for fr in g_ if fr[0] == 'pyif']
-        if l_ < ln and af == frames[:len(af)] and [fr[1] for fr in g_ if fr[0] == 'for'] == [fr[1] for fr in gen if fr[0] == 'for'][:len([1 for fr in g_ if fr[0] == 'for'])]:
-            pre.append(c.norm(t))
+        a_loops = [fr[1] for fr in g_ if fr[0] == 'for']
+        if l_ >= ln or a_loops != my_loops[:len(a_loops)]:
+            continue
+        k = 0
+        while k < len(af) and k < len(frames) and af[k] == frames[k]:
+            k += 1
+        # executed before the result on this path whenever its remaining frames hold: then its test must hold
+        pre.append((af[k:], c.norm(t)))
     out = {}
     import itertools
     for vals in itertools.product((False, True), repeat=len(atoms)):
@@ -184,12 +191,23 @@ def guard_table(c, gen, ln, atoms, consistent=lambda a: True):
             if v is None:
                 r = None
         if r is not False:
-            for t in pre:
+            for extra, t in pre:
+                reach = True
+                for cond, pol in extra:
+                    v = _ev(cond, a)
+                    v = None if v is None else (v == pol)
+                    if v is False:
+                        reach = False
+                        break
+                    if v is None:
+                        reach = None
+                if reach is False:
+                    continue
                 v = _ev(t, a)
-                if v is False:
+                if v is False and reach is True:
                     r = False
                     break
-                if v is None:
+                if v is not True:
                     r = None
         out[vals] = r
     return out
@@ -361,7 +379,14 @@ def find_resource(rep, idx):
         rep.form(direct[0][0] == want, "C03.1", site, "an own resource is reported with its own name, its stored range and the map's data width",
                  f"returns {ir.show(direct[0][0])[:160]}", wrong=direct_wrong(c, direct[0][0], ('name', 'resource'), None))
     if len(through) != 1:
-        rep.bad("C03.4", site, "windows are searched next", f"{len(through)} translated result(s)")
+        via_helper = any(isinstance(n, ast.Call) and (isinstance(n.func, ast.Name) and n.func.id == "next" or
+                                                       isinstance(n.func, ast.Attribute) and isinstance(n.func.value, ast.Name) and
+                                                       n.func.value.id == "self" and n.func.attr.startswith("_") and n.func.attr != "_translate")
+                         for n in ast.walk(c.fi.node))
+        if not through and via_helper:
+            rep.unk("C03.4", site, "windows are searched next", "the window search goes through next(...) / a private helper that the rule does not follow")
+        else:
+            rep.bad("C03.4", site, "windows are searched next", f"{len(through)} translated result(s)")
         return
     v, gen, ln = through[0]
     loops = [fr[1] for fr in gen if fr[0] == 'for']
@@ -480,8 +505,18 @@ def window_size(rep, idx):
     site = c.fi.site
     calls = [x for x, gen, ln in c.calls_named("_compute_addr_range")]
     if not calls or len(calls[0][2]) < 3:
-        rep.unk("C03.2", site, "window size", "cannot find the size passed to _compute_addr_range")
-        return
+        # the placement helper is gone (opened in place): read the span and the step off the inserted range
+        ins = [c.norm(e) for e, gen, dsl_, ln in c.t.calls if e[0] == 'call' and c.norm(e)[1] == c.parse("self._ranges.insert")]
+        R = ins[0][2][0] if len(ins) == 1 and len(ins[0][2]) == 2 else None
+        size = None
+        if R is not None and R[0] == 'call' and R[1] == ('name', 'range') and len(R[2]) == 3:
+            for x in ir.walk(R[2][1]):
+                if x[0] == 'call' and x[1] == c.parse("self._align_up") and len(x[2]) == 2 and x[2][0][0] == 'call' and x[2][0][1] == ('name', 'max'):
+                    size = x
+        if size is None:
+            rep.unk("C03.2", site, "window size", "cannot find the size passed to _compute_addr_range")
+            return
+        calls = [('call', None, (None, size, R[2][2]), ())]
     size, step = calls[0][2][1], calls[0][2][2]
     # the rounding of the placement helper (max(size, 1) aligned up) applied before the call instead of inside it
     if size[0] == 'call' and size[1] == c.parse("self._align_up") and len(size[2]) == 2 and size[2][0][0] == 'call' and \
